@@ -344,7 +344,7 @@ func c26RPC(c c26Case, x *vkit.Ctx) {
 		x.Inconclusive("agent could not be started")
 		return
 	}
-	ln, err := net.Listen("tcp", "127.0.0.1:0")
+	ln, err := loopbackListen()
 	if err != nil {
 		a.Shutdown()
 		tr.Kill()
